@@ -3,6 +3,39 @@ NOTE_COMMON = ("Trusted: Coq 8.16.1 kernel + vm_compute; no axioms (Print Assump
                "Python harness encoders/comparator; kirin, bloqade.geometry, CPython not verified.")
 
 CHECKS = {
+    "C01": {
+        "text": "Theorem (all op sequences, i.e. whatever loops/branches/helpers a terminating kernel executes): the statement-by-statement "
+                "model of ActionTracer/TraceInterpreter equals the reference AOD model in segment vocabulary, fails exactly for AOD use "
+                "before set_loc or a shape-changing move, and its internal assert is unreachable. Tables of recorded action classes are "
+                "reflected from the live code each run and re-checked by Coq lemmas; the model is tied to run_trace by evaluating it (vm_compute) "
+                "on the op lists of generated kernels (native evaluation of the same source) and on ALL op sequences up to length 3/4 through "
+                "an interpreter kernel.",
+        "note": NOTE_COMMON + " kirin's lowering/type inference/control flow produce the op sequence and are exercised, not verified.",
+        "technique": "Coq refinement proof (simulation invariant) + reflected tables + vm_compute correspondence on generated kernels",
+    },
+    "C02": {
+        "text": "Theorems for ALL paths: reverse_path is an involution, reverses the waypoint order, flips every switch keeping class forms and "
+                "tone fields, inverts position-wise; schedule-level reverse is an involution and f / reverse(f) yield mutually reversed paths for "
+                "an arbitrary tracer. inv() of all classes is reflected from the live code (object identity of fields) and re-checked in Coq; "
+                "reverse_path is compared on generated and traced paths; schedule level is run on the three Gen routes.",
+        "note": NOTE_COMMON,
+        "technique": "Coq proofs by list induction + reflected inv() table + vm_compute correspondence",
+    },
+    "C11": {
+        "text": "Theorems: every path the tracer model yields is well formed (invariant proved for all op sequences) and reversal preserves "
+                "well-formedness. wfb is evaluated in Coq on every path produced by generated kernels, library kernels and their reversals; a Python "
+                "twin of the predicate is the search oracle, and ill-formed canaries must be rejected by both.",
+        "note": NOTE_COMMON + " The tracer model is tied to taskgen.py by C01's correspondence.",
+        "technique": "Coq invariant proof over all op sequences + vm_compute evaluation of wfb on implementation paths",
+    },
+    "C15": {
+        "text": "A heap model makes Python aliasing explicit (mutable waypoint cells, reference lists, shallow copy, dirty state after failures). "
+                "Theorems over ALL histories from ANY starting state: each result, observed at any later time, equals the fresh-instance result; "
+                "cells of a result are allocated by its own call. Tied to the implementation by replaying all histories up to length 3/4 over 5 "
+                "items (incl. the three failure kinds) and random histories up to length 12, with object-identity checks on live results.",
+        "note": NOTE_COMMON,
+        "technique": "Coq proof over an explicit heap model (simulation to the pure tracer) + history replay correspondence",
+    },
     "C18": {
         "text": "All lattice laws (reflexive, transitive, antisymmetric order; bottom/top; join/meet commutative, idempotent, "
                 "upper/lower bounds, consistent with the order) are Coq theorems by structural induction over ALL elements of any "
